@@ -8,3 +8,4 @@ from . import binary  # noqa: F401
 from . import smt  # noqa: F401
 from . import enc  # noqa: F401
 from . import hexary  # noqa: F401
+from . import trav  # noqa: F401
